@@ -37,11 +37,12 @@ func c01(c *Ctx) {
 }
 
 func c02(c *Ctx) {
-	c.R.Explanation = "C02 decided on the SSA of /repo with the same symbolic range analysis as C01. (a) every nil-error return of the target computation satisfies request >= GetMinPwm() + offset (all algorithms/states/readings, as in C01). (b) the floor never drops: every store to the offset field is an initialisation to a non-negative constant or an increment by a positive constant, and no Fan.SetMinPwm call with a non-false force is reachable from UpdateFanSpeed (the fan's own minimum is changed only by attaching measured data with force=false, C13). (c) on the path that performs the raise (the path containing the offset increment) the returned request is >= old floor + 1 and >= l + 1 where l is the load of the last-request cell that the path established equal to the request: the request issued at the raise is strictly higher than the stalled one; a raise path exists. (d) every Fan.GetMinPwm implementation returns the constant 0 unless never-stop was established. Not decided: that a stall is detected (C10)."
+	c.R.Explanation = "C02 decided on the SSA of /repo with the same symbolic range analysis as C01. (a) every nil-error return of the target computation satisfies request >= GetMinPwm() + offset (all algorithms/states/readings, as in C01). (b) the floor never drops: every store to the offset field is an initialisation to a non-negative constant or an increment by a positive constant, and no Fan.SetMinPwm call with a non-false force is reachable from UpdateFanSpeed (the fan's own minimum is changed only by attaching measured data with force=false, C13). (c) on the path that performs the raise (the path containing the offset increment) the returned request is >= old floor + 1 and >= l + 1 where l is the load of the last-request cell that the path established equal to the request: the request issued at the raise is strictly higher than the stalled one; a raise path exists. (d) every Fan.GetMinPwm implementation returns the constant 0 unless never-stop was established. floor-cap = every path from the stall edge to a floor-raising instruction crosses an edge establishing request < Fan.GetMaxPwm(): the request is >= the floor, so the raised floor never passes the fan's maximum (a floor above it makes the rescale range negative and later requests fall below the raised minimum). Not decided: that a stall is detected (C10)."
 	c.R.Assumptions = append(c.R.Assumptions, envelopeAssumptions)
 	r := c.analyseRegulation()
 	r.ruleEnvelope("floor", false, true, true)
 	r.ruleOffsets("monotone-offset")
+	r.ruleFloorCap("floor-cap")
 	r.ruleNoForcedMin("no-forced-min")
 	c.ruleMinZero("min0", r.tb)
 	// the write routine records the request (needed for (c): the stalled request is the last request)
